@@ -4,6 +4,7 @@ from __future__ import annotations
 import itertools
 import json
 import random
+import re
 import sys
 import threading
 import time
@@ -49,7 +50,11 @@ def run_forced(a, sched_cls=Scheduler):
         for kind, v in res:
             outs.append(v if kind == "ok" else {"err": "LEAK:" + type(v).__name__})
         # the main thread is not managed by the scheduler: its accesses pass through
-        return outs, realm.state(ctx), sch.trace
+        try:
+            state = realm.state(ctx)
+        except Exception as e:  # noqa: BLE001
+            state = {"unexportable": type(e).__name__}
+        return outs, state, list(sch.trace)
     finally:
         realm.close()
 
@@ -150,9 +155,17 @@ CORRS = [
 
 
 # ------------------------------------------------------------------ oracles
+def _clearers(trace):
+    return sorted({tid for tid, name in trace if name == "xsi.clear"})
+
+
 def covered_conc(a, msg=""):
-    index_threads = [p for p in a["progs"] if p["k"] in ("find_types", "parse_any") and not p.get("q", "").startswith(XS)]
-    if not a["warm"] and len(index_threads) >= 2:
+    """C19-F1: two different threads entered the index rebuild (both executed
+    xsi_cache.clear()) in this execution.  C14-F1: two build threads request the
+    same namespace-less class under different parent namespaces."""
+    m = re.search(r"cleared the index: \[([0-9, ]*)\]", msg)
+    clearers = [x for x in (m.group(1).split(",") if m else []) if x.strip()]
+    if len(clearers) >= 2:
         return "C19-F1"
     seen = {}
     for p in a["progs"]:
@@ -162,13 +175,18 @@ def covered_conc(a, msg=""):
     return None
 
 
-def check_forced(a):
-    outs, _, _ = run_forced(a)
+def _compare(a, outs, trace, how):
     alone = alone_results(a)
     for i, (x, y) in enumerate(zip(outs, alone)):
         if x != y:
-            return f"thread {i} {json.dumps(a['progs'][i])} returned {json.dumps(x)[:150]} under schedule {a['schedule']} but {json.dumps(y)[:150]} when run alone"
+            return (f"thread {i} {json.dumps(a['progs'][i])} returned {json.dumps(x)[:150]} {how} but "
+                    f"{json.dumps(y)[:150]} when run alone [threads that cleared the index: {_clearers(trace)}]")
     return None
+
+
+def check_forced(a):
+    outs, _, trace = run_forced(a)
+    return _compare(a, outs, trace, f"under schedule {a['schedule']}")
 
 
 class YieldingScheduler(Scheduler):
@@ -177,6 +195,7 @@ class YieldingScheduler(Scheduler):
     def hook(self, name):
         if getattr(self.local, "tid", None) is None:
             return
+        self.trace.append((self.local.tid, name))
         r = getattr(self.local, "rng", None)
         if r is None:
             r = self.local.rng = random.Random(self.local.tid * 7919 + self.seed)
@@ -212,12 +231,8 @@ class YieldingScheduler(Scheduler):
 
 
 def check_free(a):
-    outs, _, _ = run_forced(a, YieldingScheduler)
-    alone = alone_results(a)
-    for i, (x, y) in enumerate(zip(outs, alone)):
-        if x != y:
-            return f"thread {i} {json.dumps(a['progs'][i])} returned {json.dumps(x)[:150]} in a free-running {len(a['progs'])}-thread execution but {json.dumps(y)[:150]} when run alone"
-    return None
+    outs, _, trace = run_forced(a, YieldingScheduler)
+    return _compare(a, outs, trace, f"in a free-running {len(a['progs'])}-thread execution")
 
 
 def gen_free(rng, tier):
